@@ -83,7 +83,8 @@ def Q4(ctx):
         ok = ok and in_loop and guarded
     # returns only when empty
     for rb in body.return_blocks():
-        reached, _ = PEval(body, assume_calls({"rt::mpsc::Channel::is_empty": False})).run()
+        # (a deadlocked execution - no active thread - is exempt: cleanup does not matter, see C06/P2)
+        reached, _ = PEval(body, assume_scenario(prog, {"rt::mpsc::Channel::is_empty": False, "rt::thread::Set::is_active": True})).run()
         if rb in reached:
             ok = False
     if ok:
